@@ -17,9 +17,10 @@ PULSE_FLOAT = {"const_pulse": ["amp", "det", "phase", "pps"], "const_det": ["det
 
 
 class PCtx:
-    def __init__(self, draw, rate):
+    def __init__(self, draw, rate, custom_var=True):
         self.draw = draw
         self.rate = rate
+        self.custom_var = custom_var
         self.vars: list = []       # dict(name, size, dtype)
         self.values: dict = {}     # name -> value (first assignment)
         self.n_ops2 = 0            # expressions with >= 2 operators
@@ -117,7 +118,7 @@ def param_wf(pc: PCtx, wf: dict, nonneg: bool):
             out["d"] = pc.int_expr(int(wf["d"]))
     elif k == "interp" and pc.maybe():
         out["values"] = {"var": pc.new_var("float", list(map(float, wf["values"])), size=len(wf["values"]))}
-    elif k == "custom" and len(wf["samples"]) <= 8 and pc.maybe():
+    elif k == "custom" and pc.custom_var and len(wf["samples"]) <= 8 and pc.maybe():
         out["samples"] = {"var": pc.new_var("float", list(map(float, wf["samples"])), size=len(wf["samples"]))}
     elif k == "composite":
         out["parts"] = [param_wf(pc, p, nonneg) for p in wf["parts"]]
@@ -139,8 +140,8 @@ def param_pulse(pc: PCtx, p: dict):
 
 
 @st.composite
-def parametrized(draw, prog: dict, rate: int = 30, n_assign=(1, 3)):
-    pc = PCtx(draw, rate)
+def parametrized(draw, prog: dict, rate: int = 30, n_assign=(1, 3), custom_var=True):
+    pc = PCtx(draw, rate, custom_var)
     ops = []
     for op in prog["ops"]:
         o = op["op"]
